@@ -361,6 +361,8 @@ def impl(case):
         return {"decl_err": _exc_name(e), "src": src}
     if ctx == "func":
         target = ns["f"]
+    elif ctx == "klass" and case.get("wrong_self"):
+        target = ns["K"].f                 # the patched function itself, called with a first argument that is no instance
     elif ctx in ("inst", "klass"):
         target = ns["K"]().f
     elif case.get("via_instance"):
@@ -368,6 +370,8 @@ def impl(case):
     else:
         target = ns["K"].f
     args = [dec(a) for a in case["args"]]
+    if ctx == "klass" and case.get("wrong_self"):
+        args = [5] + args
     kwargs = {k: dec(v) for k, v in case["kwargs"]}
     wrapper = case.get("wrapper", "sync")
     gen = case.get("gen")
@@ -407,8 +411,12 @@ def impl(case):
             r = target(*args, **kwargs)
             out["ret"] = enc(r)
         elif wrapper == "coro":
-            co = target(*args, **kwargs)
-            out["at_call"] = log["body"]      # eager: parameters are parsed now, the body still runs on await
+            try:
+                co = target(*args, **kwargs)
+            except BaseException:
+                out["err_at"] = "call"        # eager: the parameters are parsed when the function is called
+                raise
+            out["at_call"] = log["body"]      # … the body still runs on await
             r = asyncio.run(_await(co))
             out["ret"] = enc(r)
         elif wrapper == "gen":
@@ -1006,6 +1014,8 @@ def gen_binding_case(rng, tier="quick"):
             "options": opts}
     if ctx not in ("func", "inst", "klass") and rng.random() < 0.3:
         case["via_instance"] = True
+    if ctx == "klass" and rng.random() < 0.2:
+        case["wrong_self"] = True
     if wrapper in ("sync", "coro"):
         r = rng.random()
         if r < 0.3:
@@ -1339,6 +1349,13 @@ def verdict(case, out, ex, nobind_err=None):
 
 
 def spec_bind(case, out):
+    if case.get("wrong_self") and case.get("ctx") == "klass" and "decl_err" not in out:
+        # a method of a class decorated as a whole, called with a first argument that is not an instance: that
+        # parameter (implicitly typed by the class) fails — ParseError, the body does not run
+        o = fold(case, out)
+        if o["body"] or o.get("err") != "ParseError":
+            return f"first argument 5 is not an instance of the decorated class: expected ParseError without the body, got err={o.get('err')} body={o['body']}"
+        return None
     return verdict(case, out, expected(case))
 
 
@@ -1546,7 +1563,8 @@ class C08(Check):
         ctx = case.get("ctx", "func")
         bound = FIRST[ctx] is not None
         line = {"kind": "bind", "params": full_params(case), "ctx": CTX_FLAGS[ctx], "options": case.get("options") or {},
-                "args": ([SELF] if bound else []) + case["args"], "kwargs": case["kwargs"],
+                "args": ([enc(5) if case.get("wrong_self") and ctx == "klass" else SELF] if bound else []) + case["args"],
+                "kwargs": case["kwargs"], "eager": bool(case.get("eager")),
                 "spec_params": [model_param(p) for p in case["params"]], "spec_args": case["args"],
                 "ret": case.get("ret") if isinstance(case.get("ret"), str) else None}
         if case.get("retval") and case.get("wrapper", "sync") in ("sync", "coro"):
@@ -1579,6 +1597,8 @@ class C08(Check):
         io = fold(case, io)
         m = mo["model"]
         ctx = case.get("ctx", "func")
+        if case.get("wrapper") == "coro" and bool(mo.get("raised_at_call")) != (io.get("err_at") == "call"):
+            return f"coroutine: model raises at call time = {mo.get('raised_at_call')}, impl err_at = {io.get('err_at')}"
         if m["out"] == "perr":
             if io.get("err") != "ParseError" or io["body"]:
                 return f"model: ParseError before the body; impl: err={io.get('err_cls') or io.get('err')} body={io['body']}"
